@@ -76,6 +76,8 @@ func expandToken(tx plugintypes.TransactionState, token macroToken) string {
 		}
 	case collection.Single:
 		return col.Get()
+	case nil:
+		// collection not available for this variable
 	default:
 		if c := col.FindAll(); len(c) > 0 {
 			return c[0].Value()
